@@ -50,6 +50,22 @@ def run(ctx):
             ok, why = False, "signatures is not a fresh empty dict"
             break
     ctx.ob("R1", "wrap-fresh-envelope", site.loc(), "wrap_as_signable " + ("returns {'signatures': {}, 'signed': deepcopy(obj)}" if ok else "deviates: " + why), ok)
+    # "for every JSON payload wrapping ... yields an envelope": the only refusal is the type gate's
+    extra = []
+    for p in sm.paths:
+        if p.kind != "raise" or refuted_at_defaults(eng, "signing.wrap_as_signable", (sm.params[0],), set(p.facts) | set(p.value.conds)):
+            continue
+        x = p.value
+        st_r = State(facts=set(p.facts) | set(x.conds))
+        if x.origin == "resource" or (x.exc == "TypeError" and not st_r.holds(("type", obj, JSON_TYPES))):
+            continue  # (the value is not of a JSON type, or the copy ran out of stack/memory)
+        extra.append(x)
+    seen_x = {}
+    for x in extra:
+        seen_x.setdefault((x.exc, x.chain[-1].key()), x)
+    for (exc, k), x in sorted(seen_x.items()):
+        ctx.ob("R1", "wrap-refuses|%s|%s" % (exc, k), x.chain[-1].loc(), "wrap_as_signable refuses a value of a JSON type with %s (%s): not every JSON payload can be wrapped and signed any more" % (exc, x.why[:80]), False)
+    ctx.ob("R1", "wrap-total", site.loc(), "wrap_as_signable %s" % ("refuses nothing but values that are not of a JSON type" if not extra else "has %d further way(s) of failing" % len(seen_x)), not extra)
 
     # what wrap_as_signable produces must be what sign_signable / verify_signable take for an
     # envelope: is_signable decides exactly the envelope grammar (all JSON payload types, C15-R4)
@@ -143,6 +159,9 @@ def signing_is_total(ctx, rule):
                         break
         if cause is None and x.origin == "implicit" and len(x.chain) > 1 and (x.chain[-1].fn in pipeline or x.chain[-1].fn.startswith(PIPELINE_CLASSES)):
             cause = "a step of the signing pipeline (in %s)" % x.chain[-1].fn
+        if cause is None and len(x.chain) > 1 and any(st_.fn == "common.canonserialize" for st_ in x.chain):
+            # the serializer turned the payload away in words of its own (what it may turn away is C07-R4)
+            cause = "a step of the signing pipeline (the serializer's own refusal)"
         k = (cause or "other", x.exc, x.chain[-1].key())
         if k in seen:
             continue
